@@ -1099,6 +1099,32 @@ func inProc(e *c07Env, client int, op, key, src string) hEvent {
 		ev.Arg = id
 		ev.Call = e.now()
 		resp = e.s.Put(b, key, body, nil)
+	case "getrange":
+		// a ranged read: the bytes are the requested slice of exactly one upload
+		resp = e.s.Do(&drv.Req{Method: "GET", Path: drv.ObjPath(b, key), Header: drv.H("Range", "bytes=7-")})
+		ev.Op = "get"
+		if resp.Status == 404 {
+			ev.Obs = 0
+		} else if resp.Status == 200 {
+			ev.Obs = -2
+			if id, ok := e.reg.idOfETag(resp.ETag()); ok {
+				if full := e.reg.bodyOf(id); len(full) >= 7 && bytes.Equal(resp.Body, full[7:]) {
+					ev.Obs = id
+				}
+			}
+		}
+	case "put3":
+		// three uploads in a row (three committed writes); the last one is what the history records
+		var body []byte
+		for n := 0; n < 3; n++ {
+			ev.Arg, body = e.reg.mint(key, true)
+			ev.Call = e.now()
+			resp = e.s.Put(b, key, body, nil)
+			if resp.Status != 200 {
+				break
+			}
+		}
+		ev.Op = "put"
 	case "badput":
 		// an upload that is refused (its digest does not match): no effect, also none on an
 		// upload of the same key that is between two of its steps
@@ -1447,13 +1473,14 @@ func runC07(c *Ctx) {
 	// gated pairs: the hook handler is process-wide, so these run one at a time
 	if c07InstallHook(gateHandler) {
 		aOps := map[string][]string{
-			"put":    {"ensure-bucket.after", "s3mem.put.after-read", "s3mem.put.before-lock", "bolt.put.before-update", "fs.put.before-copy", "fs.put.before-meta", "fs.put.before-rename", "fs.put.before-commit", "fs.put.after-rename"},
-			"get":    {"ensure-bucket.after", "get.before-copy"},
-			"copy":   {"copy.between-get-put", "s3mem.put.before-lock", "fs.put.before-rename", "bolt.put.before-update"},
-			"delete": {"ensure-bucket.after", "fs.delete.between"},
-			"head":   {"ensure-bucket.after"},
+			"put":      {"ensure-bucket.after", "s3mem.put.after-read", "s3mem.put.before-lock", "bolt.put.before-update", "fs.put.before-copy", "fs.put.before-meta", "fs.put.before-rename", "fs.put.before-commit", "fs.put.after-rename"},
+			"get":      {"ensure-bucket.after", "get.before-copy"},
+			"getrange": {"get.before-copy"},
+			"copy":     {"copy.between-get-put", "s3mem.put.before-lock", "fs.put.before-rename", "bolt.put.before-update"},
+			"delete":   {"ensure-bucket.after", "fs.delete.between"},
+			"head":     {"ensure-bucket.after"},
 		}
-		bOps := []string{"put", "get", "head", "delete", "copy", "list", "badput"}
+		bOps := []string{"put", "get", "head", "delete", "copy", "list", "badput", "put3"}
 		caseNo := 0
 		for _, kind := range kinds {
 			s := mustServer(drv.Opts{Kind: kind})
